@@ -57,6 +57,7 @@ typedef struct muggle_ts_memory_pool
 		struct {
 			muggle_sync_t alloc_idx;
 			muggle_sync_t cached_free_pos;
+			muggle_spinlock_t alloc_spinlock;
 		};
 		MUGGLE_STRUCT_CACHE_LINE_PADDING(1);
 	};
